@@ -125,6 +125,7 @@ func init() {
 		{Name: "c01-loops", ItemsFromStep: 30, MinSteps: 2, MaxSteps: 4, Durs: []int64{0, 5, 100}, Foreach: 50, Modes: []string{"err", "crash"}, PBad: 50, PDeployFail: 10, MaxOutputs: 2},
 		{Name: "c01-stop", MinSteps: 1, MaxSteps: 3, Durs: []int64{0, 5, 50}, StopIf: true},
 	}
+	c01 = append(c01, c01[len(c01)-1]) // the stop shape twice: it is one shape among many profiles
 	register(&PropDef{ID: "C01",
 		Gen:   func(t *rapid.T) *Case { return genS1(t, "C01", c01, true) },
 		Check: s1Check("C01", OracleTerminates, OraclePrompt),
